@@ -407,6 +407,20 @@ fn gen(rng: &mut Rng, n: usize, tier: &str) -> Vec<Req> {
         }
     }
 
+    // builder matrix (shared with C14): model comparison of the second pass under custom lists
+    let mut bm = Vec::new();
+    gen::builder_matrix(rng, &mut bm);
+    let step = if thorough { 1 } else { 4 };
+    for (i, (cfg, d)) in bm.iter().enumerate() {
+        if i % step == 0 {
+            if i % 2 == 0 {
+                reqs.push(Req::new(fix_req(cfg, d), "builder.fix"));
+            } else {
+                reqs.push(Req::new(twice_req(cfg, d), "builder.twice"));
+            }
+        }
+    }
+
     // depth boundary: allowed elements nested exactly k deep
     for k in (1..=6).chain(96..=104).chain([150, 250]) {
         let d = gen::gen_allowed_deep(rng, k);
